@@ -144,7 +144,10 @@ OkFrame(e) ==
        [] e.ev = "f_iter" ->                      \* the channel iterators as iterators: Frames.tla, ItFront / ItBack / ItOp
             /\ WFSeq(f, e.a.x, n) /\ WF(f, e.a.v)
             /\ e.a.it \in {"val", "ref", "mut"} /\ e.a.k \in Nat /\ e.a.kb \in Nat /\ e.a.j \in Nat
-            /\ e.a.op \in (IF e.a.it = "val" THEN ItFwdOps ELSE ItFwdOps \cup ItBackOps)      \* channels() is not double-ended
+            \* channels() is not double-ended; ChannelsMut is not Clone
+            /\ e.a.op \in (CASE e.a.it = "val" -> ItFwdOps \cup ItCloneOps
+                             [] e.a.it = "ref" -> ItFwdOps \cup ItBackOps \cup ItCloneOps
+                             [] OTHER          -> ItFwdOps \cup ItBackOps)
             /\ (e.a.it = "val" => e.a.kb = 0) /\ (e.a.op = "step_by" => e.a.j >= 1)
             /\ LET x == FVal(f, e.a.x) v == SVal(f, e.a.v)
                    \* the model runs on channel POSITIONS 1..n (so that the writes through channels_mut can be placed);
@@ -163,7 +166,11 @@ OkFrame(e) ==
                   /\ e.o.len[1] = n /\ HintOk(e.o.sh[1], n)
                   /\ e.o.len[2] = Len(B.rem) /\ HintOk(e.o.sh[2], Len(B.rem))
                   /\ (R.alive => e.o.len[3] = Len(R.rem) /\ HintOk(e.o.sh[3], Len(R.rem)))
-                  /\ SeqIs(f, e.o.rest, At(R.rem))                      \* what next() still yields afterwards (nth / nth_back)
+                  /\ SeqIs(f, e.o.rest, At(R.rem))                      \* what next() still yields afterwards (nth / nth_back / clone)
+                  \* clone(): the clone continues where the original stands -- its len() / size_hint() at birth are those of
+                  \* the original, its items (r) the remaining channels -- and draining it leaves the original untouched (rest)
+                  /\ IF e.a.op = "clone" THEN e.o.clen = Len(B.rem) /\ HintOk(e.o.csh, Len(B.rem))
+                                          ELSE e.o.clen = -1
                   \* every reference the call yields from channels_mut is overwritten with v: v lands in those channels only
                   /\ SeqIs(f, e.o.after, IF e.a.it = "mut"
                                            THEN [c \in 1..n |-> IF \E q \in 1..Len(R.items) : R.items[q] = c THEN v ELSE x[c]]
@@ -261,7 +268,15 @@ OkInPlace(e) ==
 SampleEvs == {"s_add_amp", "s_mul_amp", "s_to_signed", "s_to_float", "s_consts"}
 FrameEvs  == {"f_offset", "f_scale", "f_add", "f_mul", "f_to_signed", "f_to_float", "f_equilibrium", "f_map", "f_zip_map",
               "f_from_fn", "f_from_samples", "f_channels", "f_channels_mut", "f_channel", "f_iter"}
-Ok(e) == CASE e.ev = "reset"       -> e.comp \in {"frame", "slice"} /\ e.r.k = "unit"
+\* BUILD PROFILES (round 5).  Every stimulus is executed by the debug build of the harness (debug assertions and overflow
+\* checks on) and by the release build (both off, optimised); the reset line carries `o.debug` = cfg!(debug_assertions).
+\* The clauses of C03 and C10 do not mention the profile: wherever the property defines a result -- the whole domain of
+\* the arithmetic claims above, every slice conversion, every in-place operation INCLUDING the refusal of a length
+\* mismatch by a panic before anything is modified -- the expected outcome is the same in both profiles, so a check that
+\* exists only under debug assertions (debug_assert!, cfg!(debug_assertions) branches) is a violation in the release
+\* trace.  Where the outcome legitimately differs (an offset whose mathematical result leaves the format: overflow panic
+\* in debug, wrap-around in release) the property makes no claim in either profile (Claim(FALSE, ..), counted).
+Ok(e) == CASE e.ev = "reset"       -> e.comp \in {"frame", "slice"} /\ e.r.k = "unit" /\ e.o.debug \in BOOLEAN
            [] e.ev \in SampleEvs   -> OkSample(e)
            [] e.ev \in FrameEvs    -> OkFrame(e)
            [] e.ev = "to_frames"   -> OkToFrames(e)
